@@ -366,6 +366,9 @@ func NormalizeSchema(s *sdl.Schema) *sdl.Schema {
 	out := *s
 	out.Types = sdl.FMap[sdl.TypeDef]{}
 	for n, td := range s.Types {
+		if strings.HasPrefix(n, "__") {
+			continue
+		}
 		td.Ifaces, td.Members, td.Values = sortedCopy(td.Ifaces), sortedCopy(td.Members), sortedCopy(td.Values)
 		out.Types[n] = td
 	}
